@@ -154,6 +154,27 @@ struct Exec {
       }
       if (!failed() && res.status == CBOR_DECODER_FINISHED) {
         c.history.push_back(rec.evs[0]);
+        { // the matching low-level encoder must not request memory either (C13), and must stay inside its buffer
+          unsigned char eb[16]; memset(eb, 0xEE, sizeof eb); const RecEv& ev = rec.evs[0]; size_t wr = 0; uint64_t rb = sa_total_requests();
+          switch (ev.slot) {
+            case SL_UINT8: wr = cbor_encode_uint8((uint8_t)ev.arg, eb, 9); break; case SL_UINT16: wr = cbor_encode_uint16((uint16_t)ev.arg, eb, 9); break;
+            case SL_UINT32: wr = cbor_encode_uint32((uint32_t)ev.arg, eb, 9); break; case SL_UINT64: wr = cbor_encode_uint64(ev.arg, eb, 9); break;
+            case SL_NEGINT8: wr = cbor_encode_negint8((uint8_t)ev.arg, eb, 9); break; case SL_NEGINT16: wr = cbor_encode_negint16((uint16_t)ev.arg, eb, 9); break;
+            case SL_NEGINT32: wr = cbor_encode_negint32((uint32_t)ev.arg, eb, 9); break; case SL_NEGINT64: wr = cbor_encode_negint64(ev.arg, eb, 9); break;
+            case SL_BSTR: wr = cbor_encode_bytestring_start((size_t)ev.arg, eb, 9); break; case SL_TSTR: wr = cbor_encode_string_start((size_t)ev.arg, eb, 9); break;
+            case SL_BSTR_START: wr = cbor_encode_indef_bytestring_start(eb, 9); break; case SL_TSTR_START: wr = cbor_encode_indef_string_start(eb, 9); break;
+            case SL_ARRAY: wr = cbor_encode_array_start((size_t)ev.arg, eb, 9); break; case SL_ARRAY_INDEF: wr = cbor_encode_indef_array_start(eb, 9); break;
+            case SL_MAP: wr = cbor_encode_map_start((size_t)ev.arg, eb, 9); break; case SL_MAP_INDEF: wr = cbor_encode_indef_map_start(eb, 9); break;
+            case SL_TAG: wr = cbor_encode_tag(ev.arg, eb, 9); break; case SL_BOOL: wr = cbor_encode_bool(ev.arg != 0, eb, 9); break;
+            case SL_NULL: wr = cbor_encode_null(eb, 9); break; case SL_UNDEF: wr = cbor_encode_undef(eb, 9); break; case SL_BREAK: wr = cbor_encode_break(eb, 9); break;
+            case SL_FLOAT2: wr = cbor_encode_half(u2f((uint32_t)ev.arg), eb, 9); break; case SL_FLOAT4: wr = cbor_encode_single(u2f((uint32_t)ev.arg), eb, 9); break;
+            case SL_FLOAT8: wr = cbor_encode_double(u2d(ev.arg), eb, 9); break; default: break;
+          }
+          if (sa_total_requests() != rb) fail("C13", "low-level-encoder-allocates", where + fmt(": cbor_encode_* for a '%s' event made allocator requests", slot_name(ev.slot)));
+          for (size_t q = 9; q < sizeof eb; q++) if (eb[q] != 0xEE) { fail("C07", "low-level-encoder-writes-past-buffer", where); break; }
+          if (wr == 0 || wr > 9) fail("C07,C10", "low-level-encoder-length", where + fmt(": encoder returned %zu", wr));
+          stat_add("encoder_calls");
+        }
         g_log.ev("event", rec.evs[0].slot, rec.evs[0].arg, hash_bytes(rec.evs[0].payload.data(), rec.evs[0].payload.size()));
         // "does not depend on any byte beyond those it reports as read" + "keeps no state": same head alone, exact window
         if (replay && res.read <= avail) {
